@@ -154,18 +154,18 @@ type capSigner struct {
 }
 
 func (c *capSigner) SigInfo() (*ndn.SigConfig, error) { return c.inner.SigInfo() }
-func (c *capSigner) EstimateSize() uint                { return c.inner.EstimateSize() }
+func (c *capSigner) EstimateSize() uint               { return c.inner.EstimateSize() }
 func (c *capSigner) ComputeSigValue(w enc.Wire) ([]byte, error) {
 	c.saw = append([]byte(nil), w.Join()...)
 	return c.inner.ComputeSigValue(w)
 }
 
 type sigKit struct {
-	ek *ecdsa.PrivateKey
-	rk *rsa.PrivateKey
-	hk []byte
-	kn enc.Name
-	tm *dummy.Timer
+	ek    *ecdsa.PrivateKey
+	rk    *rsa.PrivateKey
+	hk    []byte
+	kn    enc.Name
+	tm    *dummy.Timer
 	cache map[string]ndn.Signer
 }
 
@@ -527,6 +527,8 @@ func TestTlvShapes(t *testing.T) {
 				}
 				ev["parserCovered"] = pc
 				ev["accepted"] = sig != nil && kit.verify(s.Signer, cov, sig)
+			} else if sgn != nil { // a signed packet that does not even decode is accepted by no validator
+				ev["parserCovered"], ev["accepted"] = false, false
 			}
 		}()
 		w.Emit(ev)
@@ -548,6 +550,13 @@ func TestTlvShapes(t *testing.T) {
 		}
 		for _, r := range digRanges {
 			regs = append(regs, region{"params", r})
+		}
+		// the digest component itself (the last name component of an Interest with parameters, also zero-length ones)
+		if sh.Kind == "interest" && len(digRanges) == 1 {
+			h := sha256.Sum256(raw[digRanges[0][0] : digRanges[0][0]+digRanges[0][1]])
+			if at := bytes.Index(raw[:digRanges[0][0]], h[:]); at >= 0 {
+				regs = append(regs, region{"digest", [2]int{at, 32}})
+			}
 		}
 		for _, rg := range regs {
 			if rg.r[1] <= 0 {
@@ -591,8 +600,29 @@ func TestTlvShapes(t *testing.T) {
 				}()
 				w.Emit(map[string]any{"ev": "tamper", "kind": sh.Kind, "id": s.Id, "signer": s.Signer, "region": rg.name, "bit": bit, "off": bit/8 - rg.r[0], "outcome": outcome})
 				n++
+				// the same bytes presented in three segments (the path management and the engines decode through)
+				if sh.Kind == "interest" && (rg.name == "params" || rg.name == "digest") && len(m) > 8 {
+					out3 := "decode-error"
+					func() {
+						defer func() {
+							if r := recover(); r != nil {
+								out3 = "panic"
+							}
+						}()
+						c1, c2 := len(m)/3, 2*len(m)/3
+						pi, cov, err := spec.Spec{}.ReadInterest(enc.NewWireReader(enc.Wire{m[:c1], m[c1:c2], m[c2:]}))
+						if err == nil {
+							out3 = "rejected"
+							if sgn == nil || (pi.Signature() != nil && kit.verify(s.Signer, cov, pi.Signature())) {
+								out3 = "accepted"
+							}
+						}
+					}()
+					w.Emit(map[string]any{"ev": "tamper", "kind": sh.Kind, "id": s.Id, "signer": s.Signer, "region": rg.name + "/segmented", "bit": bit, "off": bit/8 - rg.r[0], "outcome": out3})
+					n++
+				}
 				// the decoder the forwarder and the engines use (ReadPacket) must refuse a parameters-digest mismatch as well
-				if sh.Kind == "interest" && rg.name == "params" {
+				if sh.Kind == "interest" && (rg.name == "params" || rg.name == "digest") {
 					out2 := "decode-error"
 					func() {
 						defer func() {
@@ -604,7 +634,7 @@ func TestTlvShapes(t *testing.T) {
 							out2 = "accepted"
 						}
 					}()
-					w.Emit(map[string]any{"ev": "tamper", "kind": sh.Kind, "id": s.Id, "signer": s.Signer, "region": "params/ReadPacket", "bit": bit, "off": bit/8 - rg.r[0], "outcome": out2})
+					w.Emit(map[string]any{"ev": "tamper", "kind": sh.Kind, "id": s.Id, "signer": s.Signer, "region": rg.name + "/ReadPacket", "bit": bit, "off": bit/8 - rg.r[0], "outcome": out2})
 					n++
 				}
 			}
